@@ -967,8 +967,11 @@ func processTree18(r *Run, t *tree18, toModel bool, ondiskBudget *int) {
 }
 
 func runC18(r *Run, rng *Rng, tier string) error {
+	// NewRng(seed) and Next() advance by the same constant, so the raw streams of seeds n and n+1 are
+	// shifted copies of each other; forking once decorrelates them (the fork state is a mixed output)
+	rng = rng.Fork()
 	r.shard = 1
-	nTrees := 28
+	nTrees := 24
 	ondisk := 3
 	if tier == "thorough" {
 		nTrees = 400
@@ -984,7 +987,7 @@ func runC18(r *Run, rng *Rng, tier string) error {
 		budget := 1
 		processTree18(r, t, true, &budget)
 	}
-	maxTrace := 130
+	maxTrace := 110
 	if tier == "thorough" {
 		maxTrace = 260
 	}
